@@ -535,6 +535,27 @@ def protocol_mc(chk, nseeds=None):
             raise ToolError("non-vacuity probe %s was not violated: the protocol model never reaches that situation" % probe)
 
 
+def library_mc(chk, probes=("NV_CapErrorP", "NV_CapErrorV", "NV_AcceptedAfterIncrease", "NV_ShapeRejected")):
+    """Model check of the composed machine (MC_Library: table histories x byte-level adversary through System's prover and verifier),
+    with the named non-vacuity probes (each must be violated)."""
+    maxcap = 4 if chk.quick else 6
+    cfg = chk.path("lib.cfg")
+    open(cfg, "w").write("SPECIFICATION LSpec\nCONSTANTS\n  P = 31723\n  MaxCap = %d\nINVARIANT LibInv\nINVARIANT RunsToEnd\nPROPERTY ChainGrows\nCHECK_DEADLOCK FALSE\n" % maxcap)
+    r = tlc("MC_Library.tla", cfg, chk.path("mclib"), workers=8, timeout=3000, seed=chk.seed)
+    if r["error"] or r["states"] == 0 or r["timeout"]:
+        log(r["out"][-3000:])
+        raise ToolError("MC_Library: %s" % (r["error"] or "no states / timeout"))
+    chk.cov["states"] += r["distinct"]
+    chk.cov["transitions"] += r["states"]
+    chk.cov["tlc_runs"].append({"module": "MC_Library.tla", "cfg": "LibInv RunsToEnd ChainGrows, MaxCap=%d" % maxcap, "states_generated": r["states"], "distinct_states": r["distinct"]})
+    for probe in probes:
+        cfg = chk.path("nvl_%s.cfg" % probe)
+        open(cfg, "w").write("SPECIFICATION LSpec\nCONSTANTS\n  P = 31723\n  MaxCap = %d\nINVARIANT %s\nCHECK_DEADLOCK FALSE\n" % (maxcap, probe))
+        r = tlc("MC_Library.tla", cfg, chk.path("nvl_" + probe), workers=4, timeout=1200, seed=chk.seed)
+        if not (r["error"] and "Invariant" in r["error"]):
+            raise ToolError("non-vacuity probe %s was not violated: the library model never reaches that situation" % probe)
+
+
 def toy_ideal(chk, curve, progs, cfgname, what, name, fl=None, retries=2):
     """Record programs on a toy curve and check an ideal-verdict invariant over the code's own verdicts. A run that violates the
     invariant may be Schwartz-Zippel / small-group luck: it is re-run under fresh randomness and counts only if it repeats every time."""
